@@ -7,6 +7,7 @@ git -C /repo diff --quiet || { echo "/repo has uncommitted changes"; exit 2; }
 for d in /verif/seeded/*/; do
   id=$(basename $d)
   prop=$(python3 -c "import json;print(json.load(open('$d/meta.json'))['property'])")
+  gap=$(python3 -c "import json;print('gap' if json.load(open('$d/meta.json')).get('caught') is False else '')")
   if ! git -C /repo apply --check $d/patch.diff 2>/dev/null; then echo "$id $prop does-not-apply"; continue; fi
   git -C /repo apply $d/patch.diff
   VERIF_SEED=${VERIF_SEED:-1} timeout 1500 ./check $prop $tier > build/seedreg_$id.log 2>&1; rc=$?
@@ -14,6 +15,6 @@ for d in /verif/seeded/*/; do
   if [ $rc = 1 ] && grep -q "^VIOLATION property=$prop" build/seedreg_$id.log; then
     echo "$id $prop caught: $(grep -m1 -A1 '^VIOLATION' build/seedreg_$id.log | tail -1 | cut -c1-200)"
   else
-    echo "$id $prop MISSED (exit $rc)"
+    if [ "$gap" = gap ]; then echo "$id $prop known gap (recorded as not caught in its meta.json)"; else echo "$id $prop MISSED (exit $rc)"; fi
   fi
 done
